@@ -690,6 +690,12 @@ def fixed_scenarios(rec, rnd, tmp):
         rec.count('cli_runs')
         if U is None:
             continue
+        twins = {m['name']: (m['category'], m['count'], round(m['total'], 2)) for m in U['merchants'] if m['name'].lower() == 'acme store'}
+        want_twins = {'ACME STORE': ('Transport', 1, 10.0), 'Acme store': ('Shopping', 1, 80.0)}
+        rec.count('fixed_case_twin_report_checks')
+        if twins != want_twins:
+            rec.violation('merchants-differing-in-letter-case-are-not-kept-apart', f'rules name the merchants ACME STORE (amount < 50) and Acme store: `tally up` reports {twins}, '
+                          f'expected {want_twins} (discover / explain "<description>" classify per transaction)', case)
         for m in U['merchants']:
             if m['name'] not in ('ACME STORE', 'Acme store'):
                 continue
